@@ -31,6 +31,8 @@ type c11Level struct {
 type c11Case struct {
 	Tree     *h.Tree    `json:"tree"`
 	Levels   []c11Level `json:"levels"` // innermost first
+	// EmptyLists: lists without entries are handed over as empty non-nil slices
+	EmptyLists bool `json:"emptylists,omitempty"`
 	Capacity int        `json:"capacity"`
 	// Wrap: the stack handed to Send is wrapped in a pass-through FS of a type the
 	// library does not know (callers compose and wrap views freely)
@@ -55,6 +57,7 @@ var c11TreeCfg = h.TreeCfg{
 
 func genC11(t *rapid.T) *c11Case {
 	c := &c11Case{Tree: h.GenTree(t, c11TreeCfg, "t")}
+	c.EmptyLists = rapid.IntRange(0, 2).Draw(t, "emptylists") == 0
 	nl := rapid.SampledFrom([]int{1, 1, 2}).Draw(t, "nlevels")
 	for i := 0; i < nl; i++ {
 		l := c11Level{
@@ -137,7 +140,7 @@ func c11Check(env *h.Env, c *c11Case) error {
 	}
 	var eff []lvl
 	for _, l := range c.Levels {
-		opt := &fsutil.FilterOpt{IncludePatterns: l.Include, ExcludePatterns: l.Exclude, FollowPaths: l.Follow}
+		opt := &fsutil.FilterOpt{IncludePatterns: listArg(l.Include, c.EmptyLists), ExcludePatterns: listArg(l.Exclude, c.EmptyLists), FollowPaths: listArg(l.Follow, c.EmptyLists)}
 		eff = append(eff, lvl{c11EffectiveIncludes(view, l), l.Exclude})
 		nv, err := fsutil.NewFilterFS(view, opt)
 		if err != nil {
